@@ -72,3 +72,37 @@ Theorem C19_crash_example :
   /\ length (refine_trace shelxl during (fun l => concat l) (fun _ => false) (fun _ l => l) None [lit "UNIT 1"] f0) = 9%nat.
 Proof. exact (crash_example ). Qed.
 Print Assumptions C19_crash_example.
+
+Theorem C19_refine_b_backup_is_refine (shelxl : fs -> Z * fs) (parse : str -> list str) (render : list str -> str) (is_acta is_unit : str -> bool)
+  (set_cycles : nat -> list str -> list str) (cycles : option nat) (lines : list str) (f : fs) :
+  let '(o, f', ins, _) := refine_b shelxl parse render is_acta is_unit set_cycles true cycles lines f in
+  refine shelxl parse render is_acta is_unit set_cycles cycles lines f = (o, f', ins).
+Proof. exact (refine_b_backup_is_refine shelxl parse render is_acta is_unit set_cycles cycles lines f). Qed.
+Print Assumptions C19_refine_b_backup_is_refine.
+
+Theorem C19_refine_nobackup_failure_restores_nothing (shelxl : fs -> Z * fs) (parse : str -> list str) (render : list str -> str) (is_acta is_unit : str -> bool)
+  (set_cycles : nat -> list str -> list str) (cycles : option nat) (lines : list str) (f f' : fs) (o : outcome) (ins : str) (mem : list str) :
+  refine_b shelxl parse render is_acta is_unit set_cycles false cycles lines f = (o, f', ins, mem) -> o = Failed ->
+  f' = snd (shelxl (upd_fs f FIns (Some ins))).
+Proof. exact (refine_nobackup_failure_restores_nothing shelxl parse render is_acta is_unit set_cycles cycles lines f f' o ins mem). Qed.
+Print Assumptions C19_refine_nobackup_failure_restores_nothing.
+
+Theorem C19_refine_failure_keeps_model (shelxl : fs -> Z * fs) (parse : str -> list str) (render : list str -> str) (is_acta is_unit : str -> bool)
+  (set_cycles : nat -> list str -> list str) (cycles : option nat) (lines : list str) (f f' : fs) (o : outcome) (ins : str) (mem : list str) (backup : bool) :
+  refine_b shelxl parse render is_acta is_unit set_cycles backup cycles lines f = (o, f', ins, mem) -> o = Failed ->
+  let lines1 := match cycles with Some n => set_cycles n lines | None => lines end in
+  (forall x, In x lines1 -> is_acta x = false -> In x mem) /\
+  (forall a, find_acta is_acta lines1 = Some a -> existsb is_unit (without_acta is_acta lines1) = true -> In a mem).
+Proof. exact (refine_failure_keeps_model shelxl parse render is_acta is_unit set_cycles cycles lines f f' o ins mem backup). Qed.
+Print Assumptions C19_refine_failure_keeps_model.
+
+Theorem C19_nobackup_example :
+  let shelxl := fun g : fs => (1%Z, upd_fs g FRes (Some [])) in
+  let f0 : fs := fun n => match n with FRes => Some (lit "RESULT OF THE FIRST RUN") | FBak => Some (lit "OLDER") | _ => None end in
+  let is_acta := fun x : str => if list_eq_dec Ascii.ascii_dec x (lit "ACTA") then true else false in
+  let is_unit := fun x : str => if list_eq_dec Ascii.ascii_dec x (lit "UNIT 1") then true else false in
+  let r := refine_b shelxl (fun s => [s]) (fun l => concat l) is_acta is_unit (fun _ l => l) false None [lit "TITL"; lit "UNIT 1"; lit "L.S. 4"; lit "ACTA"] f0 in
+  fst (fst (fst r)) = Failed /\ snd (fst (fst r)) FRes = Some [] /\ snd (fst (fst r)) FBak = Some (lit "OLDER")
+  /\ snd r = [lit "TITL"; lit "UNIT 1"; lit "ACTA"; lit "L.S. 4"].
+Proof. exact (nobackup_example ). Qed.
+Print Assumptions C19_nobackup_example.
